@@ -200,6 +200,20 @@ def check_roundtrip(ctx, case, stratum="roundtrip"):
             bad("roundtrip-ready-made-config", nm, "equal", "different")
         if cfg.format.ascii_printable() and cfg.zstd is None and pkg_docs(Package.from_str(pkg.to_str(cfg))) != want:
             bad("roundtrip-ready-made-config", [nm, "str"], "equal", "different")
+    # the package changed AFTER it has been encoded (a module appended, the first extension dropped): the next encoding
+    # is that of the package as it is now
+    from hugr import Hugr
+
+    ctx.count("monitor:package-changed-after-encoding")
+    pkg.modules.append(Hugr())
+    if pkg.extensions:
+        del pkg.extensions[0]
+    want2 = pkg_docs(pkg)
+    for cfg in (EnvelopeConfig(format=EnvelopeFormat.JSON, zstd=None), EnvelopeConfig(format=EnvelopeFormat.JSON, zstd=3)):
+        back2 = pkg_docs(Package.from_bytes(pkg.to_bytes(cfg)))
+        if back2 != want2:
+            p = diff(want2, back2)[0]
+            bad("roundtrip-after-package-changed", [cfg.zstd, p[0]], p[1], p[2])
     return any(len(m["nodes"]) >= 4 for m in want["modules"])
 
 
